@@ -4,5 +4,6 @@ var zzRegistry = map[string]func(int){
 	"ZZ_C18":     ZZ_C18,
 	"ZZ_C09Bulk": ZZ_C09Bulk,
 	"ZZ_C09Http": ZZ_C09Http,
+	"ZZ_C10Http": ZZ_C10Http,
 	"ZZ_C14Flag": ZZ_C14Flag,
 }
